@@ -22,6 +22,13 @@ def run(v, tier, replay):
     if rc != 0:
         raise lib.Inconclusive("c20 driver failed: " + se[-2000:])
     events = lib.read_ndjson(tr)
+    # the flags layer (explicit configuration layered over a default one with a host alias): add-only overlay test
+    ov = os.path.join(sd, "flags.ndjson")
+    orc, oso, ose = lib.overlay_test("flags", "^TestVerifHostBlocksThroughFlags$", env_extra={"VT_OUT": ov, "VT_SEED": str(lib.seed())}, timeout=600)
+    if orc != 0 or not os.path.exists(ov):
+        raise lib.Inconclusive("overlay driver flags failed: %s" % (oso + ose)[-2000:])
+    events += lib.read_ndjson(ov)
+    lib.write_ndjson(tr, events)
     r = lib.tlc("Trace_HopGlob", "Trace_HopGlob.cfg", files={"trace.ndjson": "@" + tr}, workers=1, timeout=3000)
     v.add_tlc("Trace_HopGlob", r)
     if not r.ok:
